@@ -170,10 +170,12 @@ func checkC07() fw.Check {
 								res, err := runEngine(context.Background(), true, d, p)
 								ev := d.Snapshot()
 								checkMerge(c, fmt.Sprintf("%s sched %v", id, sched), 1, uint8(b.n), ev, res, err)
-								// every reply that was available one poll interval before the engine's deadline must have been read
+								// every reply that became available before the engine's deadline must have been read: polls follow each
+								// other without a gap and each one starts before the deadline, so one of them is waiting when the reply
+								// comes in - also during the last poll interval (virtual time: exact; the deadline instant itself is a tie)
 								deadline := c07Timeout + time.Duration(b.n)*c07Delay
-								if un := d.Unused(deadline - c07Poll); len(un) > 0 && err == nil {
-									c.Violate("C07", "reply-never-read", fmt.Sprintf("%s sched %v: %d reply(ies) available more than one poll interval before the deadline were never read by the engine (first: ttl %d due at %v)", id, sched, len(un), un[0].TTL, un[0].At), ev)
+								if un := d.Unused(deadline - time.Microsecond); len(un) > 0 && err == nil {
+									c.Violate("C07", "reply-never-read", fmt.Sprintf("%s sched %v: %d reply(ies) available before the deadline (%v) were never read by the engine (first: ttl %d due at %v)", id, sched, len(un), deadline, un[0].TTL, un[0].At), ev)
 								}
 								c.Count("schedules", 1)
 								il := interleaving(ev)
